@@ -949,3 +949,75 @@ func TestC12_P_WideNodesPositionedFaults(t *testing.T) {
 		ev.Sample(map[string]any{"case": desc, "read": want})
 	})
 }
+
+// Files whose nodes record no BlockSizes over dag-pb children (a child's size is learnt by opening it): with one child
+// unavailable, a read positioned anywhere - before, inside or behind the missing child's span - returns bytes of the file at
+// that position or the load error, never bytes from somewhere else.
+func TestC12_R_PositionedReadsAroundMissingUnsizedChild(t *testing.T) {
+	for _, nested := range []bool{false, true} {
+		var leaves []*mnode
+		var data []byte
+		for i := 0; i < 6; i++ {
+			c := lcgBytes(3+i%3, byte(i+1), 0)
+			data = append(data, c...)
+			leaves = append(leaves, &mnode{HasData: true, UFS: &ufsFields{Type: 2, HasData: true, Data: c, FileSize: u64p(uint64(len(c)))}})
+		}
+		wrap := func(kids []*mnode) *mnode {
+			m := &mnode{HasData: true, UFS: &ufsFields{Type: 2}}
+			for _, k := range kids {
+				m.Links = append(m.Links, mlink{Tsize: i64p(60), Child: k}) // (Tsize: the cumulative size, as writers record it)
+			}
+			return m
+		}
+		root := wrap(leaves)
+		if nested {
+			root = wrap([]*mnode{wrap(leaves[:3]), wrap(leaves[3:])})
+		}
+		st := NewStore()
+		ls := st.LinkSystem()
+		rc, err := root.store(st, ls)
+		if err != nil {
+			t.Fatal(err)
+		}
+		tree, err := st.FileTree(rc, 0)
+		if err != nil || tree.End != int64(len(data)) {
+			t.Fatalf("harness: model %v", err)
+		}
+		for _, nd := range tree.All()[1:] {
+			for _, bare := range []error{nil, io.EOF} {
+				for off := int64(0); off < int64(len(data)); off++ {
+					st.Missing, st.MissingBare = map[cid.Cid]bool{nd.Cid: true}, bare
+					rn, err := loadReified(ls, rc, "unixfs")
+					if err != nil {
+						t.Fatal(err)
+					}
+					var got []byte
+					var rerr error
+					must(t, "positioned read", func() {
+						rs, e := rn.(datamodel.LargeBytesNode).AsLargeBytes()
+						if e != nil {
+							rerr = e
+							return
+						}
+						if _, e := rs.Seek(off, io.SeekStart); e != nil {
+							rerr = e
+							return
+						}
+						buf := make([]byte, 4)
+						var k int
+						k, rerr = io.ReadFull(rs, buf)
+						got = buf[:k]
+					})
+					st.Missing, st.MissingBare = map[cid.Cid]bool{}, nil
+					wantLen := min(4, len(data)-int(off))
+					if !bytes.Equal(got, data[off:off+int64(len(got))]) {
+						t.Fatalf("C12: file without BlockSizes (nested=%v), block at span [%d,%d) unavailable: read at %d returned %x, the file has %x there (err %v)", nested, nd.Start, nd.End, off, got, data[off:off+int64(wantLen)], rerr)
+					}
+					if len(got) < wantLen && (rerr == nil || rerr == io.EOF || (rerr == io.ErrUnexpectedEOF && bare == nil)) {
+						t.Fatalf("C12: file without BlockSizes (nested=%v), block at span [%d,%d) unavailable: read at %d returned %d of %d bytes and err=%v: the load error was swallowed", nested, nd.Start, nd.End, off, len(got), wantLen, rerr)
+					}
+				}
+			}
+		}
+	}
+}
